@@ -104,7 +104,7 @@ func (o *C09Oracle) permsUnchanged(s *Sim, sn *chain.Snapshot, where string) {
 	}
 	if m.Owner != o.perm0.Owner || !reflect.DeepEqual(norm(m.ReadonlyDids), norm(o.perm0.ReadonlyDids)) || !reflect.DeepEqual(norm(m.ReadwriteDids), norm(o.perm0.ReadwriteDids)) {
 		s.FailT("permissions-changed-without-owner-request", "", map[string]string{"where": where},
-			"%s: access lists of %s changed without an owner-signed permission request: owner %s -> %s, read-only %v -> %v, read-write %v -> %v", where, tail(o.perm0.DataId),
+			"%s: access lists of %s are not what the owner last asked for (owner-signed request -> chain): owner %s -> %s, read-only %v -> %v, read-write %v -> %v", where, tail(o.perm0.DataId),
 			tail(o.perm0.Owner), tail(m.Owner), tails(o.perm0.ReadonlyDids), tails(m.ReadonlyDids), tails(o.perm0.ReadwriteDids), tails(m.ReadwriteDids))
 	}
 }
@@ -157,10 +157,12 @@ func atoi(s string) int {
 }
 
 func (o *C09Oracle) AfterAction(s *Sim, a *Action, pre, post *chain.Snapshot, res *chain.TxResult) {
-	if o.perm0 == nil && a.Kind == "permission" && res.OK && a.Extra["adv"] == "" {
-		// the owner's own grant during setup is the baseline (recorded here so that replays have it too)
-		if m, ok := post.Metas[a.DataId]; ok {
+	if a.Kind == "permission" && res.OK && a.Extra["adv"] == "" {
+		// an owner-signed permission request: from now on the lists are exactly what the owner asked for
+		// (taken from the request, not from the chain; recorded here so that replays have it too)
+		if m, ok := pre.Metas[a.DataId]; ok && a.Owner >= 0 && s.didStr(a.Owner) == m.Owner {
 			mm := m
+			mm.ReadonlyDids, mm.ReadwriteDids = s.didList(a.RO), s.didList(a.RW)
 			o.perm0 = &mm
 		}
 	}
@@ -271,32 +273,45 @@ func setupC09(t *rapid.T, s *Sim, sidVictim bool) *c09World {
 	return w
 }
 
-func genAdversarial(t *rapid.T, s *Sim, w *c09World, n int) *Action {
+func genAdversarial(t *rapid.T, s *Sim, w *c09World, o *C09Oracle, n int) *Action {
 	meta := s.Last.Metas[w.dataId]
 	last := latestCommit(meta)
 	req := rapid.SampledFrom([]string{"store", "store", "renew", "terminate", "permission"}).Draw(t, "request")
 	relayer := rapid.SampledFrom([]int{w.attNode, w.gateway, 3}).Draw(t, "relayer")
 	a := NewAction(req, relayer)
 	a.Extra = map[string]string{"adv": "1", "victimData": w.dataId, "victimOwner": fmt.Sprint(w.victim)}
-	// who signs
-	classes := []string{"readonly", "stranger-key"}
-	if len(w.stranger) > 1 {
-		classes = append(classes, "stranger-sid")
+	// who signs: anybody who, by the owner's latest grant, may not make this request
+	inList := func(list []string, i int) bool {
+		for _, d := range list {
+			if d == s.Dids[i].Did {
+				return true
+			}
+		}
+		return false
 	}
-	if req == "renew" || req == "permission" {
-		classes = append(classes, "readwrite")
+	var rwNow, roNow []string
+	if o.perm0 != nil {
+		rwNow, roNow = o.perm0.ReadwriteDids, o.perm0.ReadonlyDids
 	}
-	cls := rapid.SampledFrom(classes).Draw(t, "signerClass")
+	pool := append([]int{w.ro, w.rw}, w.stranger...)
+	var cands []int
+	for _, i := range pool {
+		if (req == "store" || req == "terminate") && inList(rwNow, i) {
+			continue // a read-write grantee may update and terminate
+		}
+		cands = append(cands, i)
+	}
+	signer := cands[rapid.IntRange(0, len(cands)-1).Draw(t, "signer")]
+	cls := "stranger-key"
+	switch {
+	case inList(rwNow, signer):
+		cls = "readwrite"
+	case inList(roNow, signer):
+		cls = "readonly"
+	case s.Dids[signer].Kind == "sid":
+		cls = "stranger-sid"
+	}
 	a.Extra["signerClass"] = cls
-	signer := w.ro
-	switch cls {
-	case "stranger-key":
-		signer = w.stranger[0]
-	case "stranger-sid":
-		signer = w.stranger[1]
-	case "readwrite":
-		signer = w.rw
-	}
 	a.Owner, a.Signer = signer, signer
 	// request fields
 	a.DataId = w.dataId
@@ -365,8 +380,21 @@ func granteeUpdate(t *rapid.T, s *Sim, w *c09World, o *C09Oracle, n int) {
 	if !ok || meta.Status != modeltypes.MetaComplete {
 		return
 	}
+	grantee := -1
+	if o.perm0 != nil {
+		for _, i := range []int{w.rw, w.ro, w.stranger[0]} {
+			for _, d := range o.perm0.ReadwriteDids {
+				if d == s.Dids[i].Did && grantee < 0 {
+					grantee = i
+				}
+			}
+		}
+	}
+	if grantee < 0 {
+		return // nobody holds read-write access at the moment
+	}
 	a := NewAction("store", w.gateway)
-	a.Owner, a.Signer, a.PropProv = w.rw, w.rw, w.gateway
+	a.Owner, a.Signer, a.PropProv = grantee, grantee, w.gateway
 	a.DataId, a.Alias, a.Cid = w.dataId, meta.Alias, CidC
 	a.Op = uint32(rapid.IntRange(1, 2).Draw(t, "op"))
 	a.Size, a.Replica, a.Duration, a.Timeout = 1000, 1, 3600, 5
@@ -408,7 +436,20 @@ func c09Property(t *rapid.T) {
 				granteeUpdate(t, s, w, o, i)
 				continue
 			}
-			s.Do(genAdversarial(t, s, w, i))
+			if rapid.IntRange(0, 5).Draw(t, "ownerPermission") == 0 {
+				// the owner changes the access lists (grants, demotions, revocations: either list may be empty)
+				p := NewAction("permission", w.gateway)
+				p.Owner, p.DataId = w.victim, w.dataId
+				pick := func(label string) []int {
+					return rapid.SliceOfNDistinct(rapid.SampledFrom([]int{w.rw, w.ro, w.stranger[0]}), 0, 2, func(i int) int { return i }).Draw(t, label)
+				}
+				p.RW, p.RO = pick("ownerReadwrite"), pick("ownerReadonly")
+				if s.Do(p).OK {
+					s.Label("c09-owner-changed-access-lists")
+				}
+				continue
+			}
+			s.Do(genAdversarial(t, s, w, o, i))
 			if rapid.IntRange(0, 2).Draw(t, "adv") == 0 {
 				adv := NewAction("advance", 0)
 				adv.Blocks = int64(rapid.IntRange(1, 12).Draw(t, "blocks"))
